@@ -35,6 +35,7 @@ RULE = (
 ASSUMPTIONS = [
     "the cost functions that 'imply Poisson statistics' are the Poisson likelihood, the Poisson likelihood ratio and the Gauss approximation of the Poisson likelihood (however they are specified: by name or as a cost function object); chi2 and the Gaussian likelihood / likelihood ratio do not: their bars show the declared sources only",
     "a member of a plotted MultiFit is drawn with the member's own public numbers (model function at member.parameter_values, member goodness of fit / ndf in its legend block); its parameter values / uncertainties in the legend must also agree with the MultiFit's results for the parameter of that name, the analytic band oracle uses the member's block of the MultiFit's covariance matrix, and the 'global' legend lines are compared with goodness_of_fit, ndf, chi2_probability and cost_function_value of the MultiFit; which global lines are shown is not prescribed (at least one is required)",
+    "separate figures of a MultiFit with asymmetric errors: the legend of the first figure re-minimises the whole MultiFit (see the assumption on asymmetric errors), so the members of the later figures are drawn at, and compared with, the parameters the plotted MultiFit has after the plot call instead of those of the never-plotted twin",
     "an uncertainty source declared on the MultiFit for all members belongs to the total pointwise uncertainty of every member (error bars, ratio / residual bars, pull denominators)",
     "the association artist -> (fit index, subplot type) is taken from the documented return value of Plot.plot() and every such artist is verified to be a child of the corresponding axes in Plot.axes",
     "pull panels are only requested when every point of the fit has a non-zero pointwise y uncertainty (a pull without uncertainty is undefined: no source at all, or a zero value whose only uncertainty is the Poisson term or a source relative to the data); ratio / residual / pull of an unbinned fit must be rejected with TypeError (no y data)",
@@ -608,6 +609,10 @@ def execute(cfg):
                 n_eb = len([c for c in axd["main"].containers if hasattr(c, "has_yerr")])
                 rec.truth("plot:fig%d:main:errorbar_containers" % k, n_eb == exp_cont, exp_cont, n_eb, (ftype, "containers"))
                 for i in members:
+                    if multi and separate and k >= 1 and "asym" in opt.split("+"):
+                        # the legend of the first figure made the MultiFit compute asymmetric errors, which re-minimises ALL members:
+                        # the later figures are drawn at the parameters the plotted fit has from then on (its current parameters)
+                        worlds[i].num, worlds[i].multi_num = worlds[i].fit, worlds[i].multi
                     check_fit_in_axes(rec, worlds[i], "fit%s" % worlds[i].role, axd, results[k], i, opt)
                 check_legend(rec, "fig%d" % k if separate else "fig", figs[k], [worlds[i] for i in members], "asym" in opt.split("+"))
             after = [[float(x) for x in w.fit.parameter_values] for w in worlds]
